@@ -434,6 +434,11 @@ func (it *Interp) execNew(b *Backend, op *Op, list []int) ecs.Entity {
 		ra := b.rels(list, op.Rels)
 		switch op.Init {
 		case InitVal:
+			if op.Mode == 7 && len(list) == 1 && len(op.Rels) == 0 && op.E >= 0 && op.E < len(b.H) && b.W.Alive(b.H[op.E]) && b.U.Has(b.H[op.E], b.IDs[list[0]]) {
+				// aliased source: the value is read from the world's own memory, which the call may re-allocate
+				it.count("new-entity-from-a-pointer-into-the-world")
+				return comps.NewFrom(b.W, list[0], b.H[op.E], op.M < comps.N, 0)
+			}
 			return mp.NewEntity(op.Vals, ra)
 		case InitFn:
 			calls := 0
